@@ -75,6 +75,9 @@ def _pos_shapes(states=SELF_STATES):
         def real(vals, cls=cls, st=st):
             return [r_bits(vals, 'self', cls, st), vals['p']], {}
         out.append(Shape(f'{cls}/{st}', build, real))
+        if st in ('immutable', 'plain'):
+            # the codes are bit-granular whatever options.bytealigned says
+            out.append(Shape(f'{cls}/{st}/opt-bytealigned', build, real, opts={'bytealigned': True}))
     return out
 
 
